@@ -167,7 +167,10 @@ func init() {
 									cc, ok := prog.Strip(v).(*ssa.Call)
 									return ok && prog.CallObj(cc) != nil && prog.CallObj(cc).Name() == "Len"
 								}}
-								exists := VP{"exists", func(v ssa.Value) bool { pm, ok := v.(*ssa.Parameter); return ok && pm.Parent() == cl && isBoolType(pm.Type()) }}
+								exists := VP{"exists", func(v ssa.Value) bool {
+									pm, ok := v.(*ssa.Parameter)
+									return ok && pm.Parent() == cl && isBoolType(pm.Type())
+								}}
 								g1 := x.quietGuarded(c, []Cmp{{L: lenCall, R: vpConst(0), Want: LE}})
 								g2 := x.quietGuarded(c, []Cmp{isTrue(exists)})
 								okGuard = g1 && g2
